@@ -606,6 +606,17 @@ func (st *vfStorm) reportOpen(prop, key, msg string) {
 			break
 		}
 	}
+	for side, a := range []*Association{st.sim.A(), st.sim.B()} {
+		if a == nil {
+			continue
+		}
+		a.lock.Lock()
+		sn := vfSnapLocked(a)
+		st.res.witness("side %d at %v: state=%d cwnd=%d rwnd=%d inflight=%d/%dB pending=%d/%dB cum=%d next=%d peerLast=%d credit=%d t3=%v writePending=%v notifyTokens=%d reconfigs=%d",
+			side, st.sim.net.now(), sn.State, sn.CWND, sn.RWND, sn.InflightN, sn.InflightB, sn.PendingN, sn.PendingB, sn.CumAck, sn.NextTSN,
+			sn.PeerLastTSN, sn.Credit, a.t3RTX.isRunning(), a.writePending, len(a.writeNotify), len(a.reconfigs))
+		a.lock.Unlock()
+	}
 	st.res.violate(prop, key+"/"+kind, "%s; %d call(s) in flight, e.g. %s", msg, n, first)
 }
 
